@@ -1,5 +1,6 @@
 """Comparison-only methods (C04, C14): Highest/Lowest/Delta/Index, SMM, MedianAbsDev, Cross*, Reversal*.
 impl vs bit-exact Gallina model, and impl vs an independent from-scratch oracle (exact, modulo sign of zero)."""
+from fractions import Fraction
 import math
 from ..core import coq_float, f2bits, bits2f, T_ERR, T_PANIC
 from .. import gens
@@ -87,7 +88,10 @@ def sel_oracle(name, n, x0, xs):
                 exp, got = next(i for i, v in enumerate(w) if v == m), outs[t]
             elif name == "SMM":
                 s = sorted(w)
-                exp, got = (s[n // 2] + s[n // 2 - (1 if n % 2 == 0 else 0)]) * 0.5, bits2f(outs[t])
+                a, b = s[n // 2], s[n // 2 - (1 if n % 2 == 0 else 0)]
+                # the exact median (mean of the two middle elements), correctly rounded: no overflow of an intermediate sum
+                exp = float((Fraction(a) + Fraction(b)) / 2) if (finite(a) and finite(b)) else (a + b) * 0.5
+                got = bits2f(outs[t])
             else:
                 raise ValueError(name)
             if not num_eq(exp, got):
@@ -164,6 +168,12 @@ def gen_select(rng, tier):
             regime = r.choice(["mixed-zeros", "plateau", "dyadic", "monotone", "walk", "spikes", "alternating"])
             x0, xs, regime = gens.stream(r, min(steps, 3 * n + 60) if tier == "quick" else steps, regime=regime)
             cases.append(scalar_sel(name, n, x0, xs, "stream", {"regime": regime}))
+        if name != "MedianAbsDev":
+            # magnitudes at both ends of the range: sums of two elements overflow, halves of subnormals are not representable
+            ext = [1.7e308, -1.7e308, 9e307, -9e307, 1e308, 8.98e307, 5e-324, -5e-324, 1e-320, 0.0, -0.0, 1.0, -1.0]
+            for n in (1, 2, 3, 4, 5, 8):
+                xs = [r.choice(ext) for _ in range(60)]
+                cases.append(scalar_sel(name, n, r.choice(ext), xs, "extreme-magnitudes", {"regime": "extreme"}))
         for n in (0, 255) + ((1,) if lo == 2 else ()):
             cases.append(scalar_sel(name, n, 1.0, [2.0], "ctor-boundary"))
         cases.append(scalar_sel(name, 3, math.inf, [2.0], "ctor-nonfinite"))
